@@ -62,6 +62,37 @@ inductive Represents : Tree → NExpr → Prop
       nm.text = f.name → opKids aks = x :: xs → ArgsR Represents (x :: xs) args →
       Represents (.node id .FN_CALL ks) (.call f args)
 
+set_option inductive.autoPromoteIndices false in
+/-- `FoldR` with all operators of ONE priority `p` (an index, so that the relation can be nested
+in `RepresentsL`). -/
+inductive FoldRL (R : Tree → NExpr → Prop) : Nat → NExpr → List Tree → NExpr → Prop
+  | nil (p : Nat) (acc : NExpr) : FoldRL R p acc [] acc
+  | cons {p : Nat} {acc : NExpr} {o x : Tree} {op : BinOp} {b e : NExpr} {rest : List Tree} :
+      o.kind = opKind op → op.prio = p → R x b → FoldRL R p (.bin op acc b) rest e →
+      FoldRL R p acc (o :: x :: rest) e
+
+/-- The tree `t` represents `e` *and* is levelled the way the grammar builds it: the operators of
+every OPERATION node — at any depth — are of one precedence level. Same rules as `Represents`,
+with `FoldRL` in the `chain` rule. -/
+inductive RepresentsL : Tree → NExpr → Prop
+  | num {t : Tree} {l : Literal} : t.kind = .NUMBER → t.hasChildren = true → l.percent = false →
+      t.text = renderNumber l → RepresentsL t (.lit l)
+  | pct {id : Nat} {n : Tree} {ks : List Tree} {l : Literal} : n.kind = .NUMBER →
+      n.text = renderNumber l → l.percent = true →
+      RepresentsL (.node id .PERCENTAGE (n :: ks)) (.lit l)
+  | paren {id : Nat} {ks : List Tree} {x : Tree} {e : NExpr} : opKids ks = [x] →
+      RepresentsL x e → RepresentsL (.node id .OPERATION ks) (.paren e)
+  | chain {id : Nat} {ks : List Tree} {x₀ : Tree} {rest : List Tree} {e₀ e : NExpr} {p : Nat} :
+      opKids ks = x₀ :: rest → rest ≠ [] → RepresentsL x₀ e₀ →
+      FoldRL RepresentsL p e₀ rest e → RepresentsL (.node id .OPERATION ks) e
+  | call0 {id : Nat} {ks : List Tree} {nm : Tree} {f : Fn} : opKids ks = [nm] →
+      RepresentsL (.node id .FN_CALL ks) (.call f [])
+  | call {id aid : Nat} {ks aks : List Tree} {nm : Tree} {f : Fn} {x : Tree} {xs : List Tree}
+      {args : List NExpr} {more : List Tree} :
+      opKids ks = nm :: .node aid .FN_ARGUMENTS aks :: more → nm.kind = .FN_NAME →
+      nm.text = f.name → opKids aks = x :: xs → ArgsR RepresentsL (x :: xs) args →
+      RepresentsL (.node id .FN_CALL ks) (.call f args)
+
 /-- A plain number. -/
 def plain (x : Rat) : Numeric := { value := x, unit := [] }
 
